@@ -80,9 +80,16 @@ func AttestSingle() {
 	}
 }
 
-func attestBatch(n int) {
+func attestBatch(n int, orders bool) {
 	ctx := context.Background()
-	vsym.SetGOMAXPROCS(procs[vsym.Choose("gomaxprocs", len(procs))])
+	if orders {
+		// the workers of a batch may start and finish in any order
+		vsym.SetGOMAXPROCS(2)
+		vsym.DeferGoroutines(true)
+		vsym.ForkGoroutineOrder(true)
+	} else {
+		vsym.SetGOMAXPROCS(procs[vsym.Choose("gomaxprocs", len(procs))])
+	}
 	in := hc.Start(ctx, vsym.TempDir("A"), &stubs.Log{}, nil)
 	// the batch names the accounts in an order different from the wallet's
 	order := []int{2, 0, 1}[:n]
@@ -115,8 +122,12 @@ func attestBatch(n int) {
 	}
 }
 
-func AttestBatch2() { attestBatch(2) }
-func AttestBatch3() { attestBatch(3) }
+func AttestBatch2() { attestBatch(2, false) }
+func AttestBatch3() { attestBatch(3, false) }
+
+// AttestBatch2Orders, GenericMulti2Orders: two workers that start and finish in every order.
+func AttestBatch2Orders()  { attestBatch(2, true) }
+func GenericMulti2Orders() { generic(2, true, true) }
 
 func ProposeSingle() {
 	ctx := context.Background()
@@ -141,9 +152,16 @@ func ProposeSingle() {
 	}
 }
 
-func generic(n int, multi bool) {
+func generic(n int, multi bool, orders bool) {
 	ctx := context.Background()
-	vsym.SetGOMAXPROCS(procs[vsym.Choose("gomaxprocs", len(procs))])
+	if orders {
+		// the workers of a batch may start and finish in any order
+		vsym.SetGOMAXPROCS(2)
+		vsym.DeferGoroutines(true)
+		vsym.ForkGoroutineOrder(true)
+	} else {
+		vsym.SetGOMAXPROCS(procs[vsym.Choose("gomaxprocs", len(procs))])
+	}
 	in := hc.Start(ctx, vsym.TempDir("A"), &stubs.Log{}, nil)
 	order := []int{1, 2, 0}[:n]
 	names := make([]string, n)
@@ -182,9 +200,9 @@ func generic(n int, multi bool) {
 	}
 }
 
-func GenericSingle() { generic(1, false) }
-func GenericMulti2() { generic(2, true) }
-func GenericMulti3() { generic(3, true) }
+func GenericSingle() { generic(1, false, false) }
+func GenericMulti2() { generic(2, true, false) }
+func GenericMulti3() { generic(3, true, false) }
 
 var oddLens = []int{4, 28, 31, 32, 33, 36}
 
